@@ -20,7 +20,7 @@ for name in sorted(os.listdir(root)):
     det = meta.get("detected_by")
     if os.path.exists(cp):
         txt = open(cp).read()
-        obl = sorted(set(re.findall(r"obligation (\S+).*? \(harness (\w+)\)", txt)))
+        obl = sorted(set(re.findall(r"obligation (\S+).*? \(harness ([\w:]+)\)", txt)))
         ex = re.findall(r"exit=(\d+)(.*)", txt)
         code = int(ex[-1][0]) if ex else None
         how = ex[-1][1].strip() if ex else ""
